@@ -974,9 +974,16 @@ pub fn apply_request_faults(
         wire.remove_header("content-type");
         fire(ctx, plan, &mut fired, FK::CtDrop, String::new(), Expect::Judge);
     } else if want(plan, FK::CtUnregistered) {
-        let ct = ctx.with_tape(|t| *t.pick(UNREGISTERED));
-        wire.set_header("content-type", ct.as_bytes());
-        fire(ctx, plan, &mut fired, FK::CtUnregistered, ct.to_string(), Expect::Judge);
+        if ctx.chance(1, 6) {
+            // header bytes that are legal on the wire but not text
+            let ct: &[u8] = ctx.with_tape(|t| *t.pick(&[&b"text/plain; note=\xc3\xa9"[..], b"application/json\xa0", b"application/json; t=\"caf\xe9\"", b"\xff\xfe"]));
+            wire.set_header("content-type", ct);
+            fire(ctx, plan, &mut fired, FK::CtUnregistered, format!("{:?}", String::from_utf8_lossy(ct)), Expect::Judge);
+        } else {
+            let ct = ctx.with_tape(|t| *t.pick(UNREGISTERED));
+            wire.set_header("content-type", ct.as_bytes());
+            fire(ctx, plan, &mut fired, FK::CtUnregistered, ct.to_string(), Expect::Judge);
+        }
     } else if want(plan, FK::CtLabelSwap) && !sent.streaming {
         let now_json = wire.header("content-type") == Some(JSON_CT);
         wire.set_header("content-type", if now_json { SMILE_CT } else { JSON_CT });
@@ -1125,7 +1132,11 @@ pub fn apply_response_faults(
                     "text/json",
                 ])
             });
-            if wire.header("content-type") != Some(ct.as_bytes()) {
+            if ctx.chance(1, 6) {
+                let ct: &[u8] = ctx.with_tape(|t| *t.pick(&[&b"text/html; charset=iso-8859-1; title=\"caf\xe9\""[..], b"application/octet-stream\xa0", b"application/json\xa0", b"text/plain; note=\xc3\xa9"]));
+                wire.set_header("content-type", ct);
+                fire(ctx, plan, &mut fired, FK::CtUnregistered, format!("{:?}", String::from_utf8_lossy(ct)), Expect::Judge);
+            } else if wire.header("content-type") != Some(ct.as_bytes()) {
                 wire.set_header("content-type", ct.as_bytes());
                 fire(ctx, plan, &mut fired, FK::CtUnregistered, ct.to_string(), Expect::Judge);
             }
